@@ -98,6 +98,9 @@ func genCase(idents bool) func(t *rapid.T) Case {
 			if used[site] || (d == "sqlite" && strings.HasSuffix(site, "comment")) {
 				continue
 			}
+			if site == "first-table-name" && c.Scenario == "modify" {
+				continue // the edit catalogue addresses the first table by its name; the name matters for files that create it
+			}
 			used[site] = true
 			c.Injects = append(c.Injects, Inject{Site: site, S: rapid.SampledFrom(hostile).Draw(t, "hostile")})
 		}
